@@ -185,6 +185,10 @@ def check(session, shape, tx, ty, a, run):
     return None
 
 
+if os.environ.get("C21_DEEP"):
+    # thorough tier: every pair of level-1 terms combined by a list, an operator (where both are numbers) and cond
+    numeric = [t for t in LEVEL1 if isinstance(val(t, 10), int) and not isinstance(val(t, 10), bool)]
+    LEVEL1 = LEVEL1 + [("list", a, b) for a in LEVEL1 for b in LEVEL1[::3]] + [("add", a, b) for a in numeric for b in numeric] + [("cond", flag, a, b) for flag in (True, False) for a in LEVEL1[::2] for b in LEVEL1[1::4]]
 programs = [("x", tx, None) for tx in LEVEL1] + [(sh, tx, ty) for sh in SHAPES[1:] for tx, ty in [(A, B), (("add", A, B), ("cond", False, A, B)), (("item", Cc, "k"), ("list", A, A)),
                                                                                                (("cond", True, A, B), ("dict", A)), (("C", 1), A)]]
 for shape, tx, ty in programs:
@@ -216,5 +220,5 @@ for shape, tx, ty in programs:
         samples.append(dict(program=f"use({shape}) x={tx}", upstream=sorted(ups(tx))))
 
 finish(w is not None, witness=w, evaluations=n, samples=samples,
-       bound=f"{len(programs)} programs: 22 argument terms over direct results, getitem, getattr, operators, lists / dicts / tuples, cond (taken and untaken branches, equal calls inside and outside), "
+       bound=f"{len(programs)} programs: {len(LEVEL1)} argument terms over direct results, getitem, getattr, operators, lists / dicts / tuples, cond (taken and untaken branches, equal calls inside and outside), "
              "4 call shapes (positional, keyword, defaults), each run twice when it depends on the redefined producer")
